@@ -522,6 +522,150 @@ class LoopSim:
         return self
 
 
+class PlanLoop(LoopSim):
+    """the same replica of the client loop, driven by a plan instead of the PRNG: user requests (start, stop, stop with a
+    DISCONNECT, close, a publish) are submitted at named points of a connection's life - stopped, connecting, connected
+    before the CONNECT is written / flushed / answered, established, later, waiting to reconnect - one or two of them per plan,
+    the transport otherwise cooperative (optionally dropping the established connection once)."""
+
+    SITS = ["stopped", "connecting", "connected-start", "connect-unflushed", "before-connack", "established", "later", "reconnect"]
+
+    def __init__(self, rng, h, plan, drop=False):
+        super().__init__(rng, h, length=60)
+        self.plan = {k: list(v) for k, v in plan.items()}
+        self.drop = drop
+        self.started = False
+
+    def inject(self, sit):
+        # (both drivers take one request from the channel and recompute the transition before the next)
+        todo = self.plan.get(sit, [])
+        while todo:
+            op = todo.pop(0)
+            if op == "pub":
+                self.ask("cli.op op=pub | publish pid=0 topic=x742f31 qos=1 payload=x0001", kind="op")
+            else:
+                self.ask(f"cli.op op={op}", kind="op")
+                self.ops.append((len(self.script) - 1, op))
+            t = self.compute()
+            if t:
+                return t
+        return self.compute()
+
+    def process_stopped(self):
+        if not self.started:
+            self.started = True
+            self.ask("cli.op op=start", kind="op")
+            self.ops.append((len(self.script) - 1, "start"))
+            t = self.compute()
+            if t:
+                return t
+        return self.inject("stopped")
+
+    def process_connecting(self):
+        return self.inject("connecting") or "Connected"
+
+    def process_pending_reconnect(self):
+        self.ask(f"cli.advance rand={self.r.randint(0, 2 ** 40)}")
+        return self.inject("reconnect") or "Connecting"
+
+    def process_connected(self):
+        self.broker = Broker(self.r, True)
+        self.broker.new_connection()
+        b = self.broker
+        unflushed = 0
+
+        def svc():
+            nonlocal unflushed
+            f = self.ask("cli.svc cap=4096")
+            x = unhex(f.get("bytes", "x"))
+            unflushed += len(x)
+            b.feed(x)
+            return "PendingReconnect" if f.get("res", "").startswith("err") else None
+
+        def wc():
+            nonlocal unflushed
+            if unflushed:
+                f = self.ask("cli.wc")
+                unflushed = 0
+                if f.get("res", "").startswith("err"):
+                    return "PendingReconnect"
+            return None
+
+        t = self.inject("connected-start") or svc() or self.inject("connect-unflushed") or wc() or self.inject("before-connack")
+        if t:
+            return t
+        if b.connect_seen:
+            f = self.ask(f"cli.data b={hexs(b.connack(0, 0, {}))}")
+            b.connack_sent = True
+            b.session = True
+            if f.get("res", "").startswith("err"):
+                return "PendingReconnect"
+        t = self.compute() or self.inject("established")
+        if t:
+            return t
+        if self.drop:
+            self.drop = False
+            self.ask("cli.error kind=closed")
+            return "PendingReconnect"
+        for step in range(40):
+            f = self.ask("cli.nst")
+            t = None
+            if f.get("next") == "now":
+                t = svc()
+            t = t or wc()
+            if t:
+                return t
+            if step == 0:
+                t = self.inject("later")
+                if t:
+                    return t
+            if b.connack_sent and b.pending:
+                pnd = b.pending.pop(0)
+                k = pnd["kind"]
+                data = b.ack(k, pnd["pid"]) if k in ("puback", "pubrec", "pubrel", "pubcomp") else (frame(0xD0, b"") if k == "pingresp" else None)
+                if data is not None:
+                    f = self.ask(f"cli.data b={hexs(data)}")
+                    if f.get("res", "").startswith("err"):
+                        return "PendingReconnect"
+            t = self.compute()
+            if t:
+                return t
+        # the transport keeps reacting and never fails: a client that has nothing more to do stays connected - and one
+        # that was asked to stop or close and is still here is stuck
+        return self.compute()
+
+    def transition(self, target):
+        if target is None:
+            return False
+        return super().transition(target)
+
+    def run(self):
+        self.ask("cli.new v=5 policy=all jitter=none base=1000 max=2000000000 stable=0 | ka=60 cid=x63")
+        return self.loop(limit=400)
+
+
+def lifecycle_plans(tier):
+    S = PlanLoop.SITS
+    ops = ["start", "stop", "stopdisc", "close", "pub"]
+    plans = []
+    for i, s1 in enumerate(S):
+        for o1 in ops:
+            plans.append(({s1: [o1]}, False))
+            for j in range(i, len(S)):
+                if tier == "quick" and j > i + 3:
+                    continue
+                for o2 in ops:
+                    if o1 == "pub" and o2 == "pub":
+                        continue
+                    pl = {s1: [o1]}
+                    pl.setdefault(S[j], [])
+                    pl[S[j]] = pl[S[j]] + [o2]
+                    plans.append((pl, False))
+                    if tier != "quick" or (o1 in ("stopdisc", "close") or o2 in ("stopdisc", "close")) and j >= 5:
+                        plans.append((pl, True))
+    return plans
+
+
 GRAMMAR = re.compile(r"^(S*A(F|U(D|$)|$)S*)*$")
 
 
@@ -584,6 +728,20 @@ def suite_lifecycle(report, tier, seed, prop="C12"):
                 mark = len(sim.script)
                 sim.loop(limit=mark + 400)
                 sim.fair_from = mark
+            sims.append(sim)
+        # the planned requests: every pair of user requests at every pair of points in a connection's life
+        for j, (pl, drop) in enumerate(lifecycle_plans(tier)):
+            h.ask("session.reset")
+            sim = PlanLoop(Rng(seed, f"planloop:{j}"), h, pl, drop=drop)
+            sim.run()
+            sim.stop_pending = None
+            if sim.dead is None:
+                last_stop = max([st for st, op in sim.ops if op in ("stop", "stopdisc")], default=None)
+                last_start = max([st for st, op in sim.ops if op == "start"], default=-1)
+                if last_stop is not None and last_stop > last_start:
+                    sim.stop_pending = last_stop
+                # (no fairness phase: the planned loop is cooperative to its end, and stays on the connection it is on)
+                sim.fair_from = len(sim.script)
             sims.append(sim)
     finally:
         h.close()
